@@ -116,6 +116,9 @@ func filePathOf(tok string) string {
 	if strings.Contains(tok, "/") {
 		return "/src/" + tok
 	}
+	if strings.HasPrefix(tok, "w") {
+		return tok // a source path without any directory (e.g. _cgo_gotypes.go)
+	}
 	return "/src/pkg/" + tok
 }
 
@@ -130,6 +133,8 @@ func mkCall(f *absFrame) stack.Call {
 		if j := strings.LastIndexByte(p[:i], '/'); j != -1 {
 			c.DirSrc = p[j+1:]
 		}
+	} else {
+		c.SrcName = p
 	}
 	return c
 }
@@ -269,7 +274,9 @@ func normSig(s *absSig) {
 	}
 	for i := range s.Fr {
 		normArgs(&s.Fr[i].Args)
-		s.Fr[i].Dirsrc = s.Fr[i].File
+		if s.Fr[i].Dirsrc != "" || strings.Contains(s.Fr[i].File, "/") || !strings.HasPrefix(s.Fr[i].File, "w") {
+			s.Fr[i].Dirsrc = s.Fr[i].File
+		}
 	}
 	for i := range s.Created {
 		normArgs(&s.Created[i].Args)
